@@ -6,6 +6,19 @@ Nothing is replaced; two recorders note (a) which protocol class getProtocol ret
 implementation's interpreter.  Strings cross JSON as lists of code points, bytes as latin-1
 strings."""
 import mimetypes
+import signal
+
+LIMIT_S = 5.0    # wall-clock limit per request; a request that exceeds it is reported, not waited for
+MAX_TIMEOUTS = 3  # after that many in one job the remaining requests are reported as not served
+TIMEOUT_NAMES = ("KServeTimeout", "RequestTimeLimit")
+
+
+class KServeTimeout(BaseException):
+    """not an Exception: it has to pass the `except Exception` of GopherRequestHandler.handle"""
+
+
+def _alarm(signum, frame):
+    raise KServeTimeout("request not answered within %.0f s" % LIMIT_S)
 
 
 def register(OPS, drv):
@@ -57,25 +70,50 @@ def register(OPS, drv):
 
         ProtocolMultiplexer.getProtocol = getProtocol
         HandlerMultiplexer.getHandler = getHandler
+        # the driver's own per-request limit (serve_once arms it) when it has one, else ours
+        drv_limit = getattr(drv, "_alarm_ok", False) and hasattr(drv, "REQUEST_TIME_LIMIT")
+        if drv_limit:
+            old = drv.REQUEST_TIME_LIMIT
+            drv.REQUEST_TIME_LIMIT = min(old, LIMIT_S)
+        else:
+            old = signal.signal(signal.SIGALRM, _alarm)
+            signal.setitimer(signal.ITIMER_REAL, LIMIT_S)
         try:
             r = drv.serve_once(config, data, tls=tls)
         finally:
+            if drv_limit:
+                drv.REQUEST_TIME_LIMIT = old
+            else:
+                signal.setitimer(signal.ITIMER_REAL, 0)
+                signal.signal(signal.SIGALRM, old)
             ProtocolMultiplexer.getProtocol = orig_gp
             HandlerMultiplexer.getHandler = orig_gh
+            gh["depth"] = 0
         rec = gh["rec"]
         mime = []
         if rec is not None:
             sel = "".join(map(chr, rec["sel"]))
             mime = [[L(sel), is_html(sel)], [L(sel[2:]), is_html(sel[2:])]]
         return {"cls": picked.get("cls"), "out": r["out"], "exc": r["exc"], "log": [L(x) for x in r["log"]],
-                "gh": rec, "mime": mime, "secs": r["secs"]}
+                "gh": rec, "mime": mime, "secs": r["secs"], "timeout": bool(r["exc"] and r["exc"].startswith(TIMEOUT_NAMES))}
 
     def op_serve_e2e(job):
         """job: tree, config (overrides), requests: [{data (latin-1), tls}] -> per request what the
         server did; plus the admin string and the WAP prefix of the configuration in force"""
         w = drv.World(job)
         try:
-            res = [serve(w.config, drv.s2b(rq["data"]), rq.get("tls", False)) for rq in job["requests"]]
+            res = []
+            hung = 0
+            for rq in job["requests"]:
+                if hung >= MAX_TIMEOUTS:
+                    res.append({"cls": None, "out": "", "exc": "not served: %d earlier requests hung" % hung, "log": [],
+                                "gh": None, "mime": [], "secs": 0, "skipped": True})
+                    continue
+                r = serve(w.config, drv.s2b(rq["data"]), rq.get("tls", False))
+                if r["exc"] and r["exc"].startswith(TIMEOUT_NAMES):
+                    hung += 1
+                    drv.reset_lazies()
+                res.append(r)
             return {"results": res,
                     "admin": w.config.get("protocols.gopherp.GopherPlusProtocol", "admin"),
                     "waptop": w.config.get("protocols.wap.WAPProtocol", "waptop"),
